@@ -22,7 +22,7 @@ RULE = ("broadband AP contents (random walk + white noise + slow oscillations, n
 ASSUMPTIONS = ["reference low-pass = the converter's own published design (2nd order Butterworth, Wn=0.2 re. AP Nyquist) applied forward-backward to "
                "the WHOLE trace with scipy.signal.sosfiltfilt", "'away from the two file edges' = 50 LF samples (600 AP samples) at either end",
                "1 LSB tolerance: bound < 1 + 1e-3 to absorb the float32 calibration round trip"]
-REQUIRED = {"lf_files_compared": 12, "window_pairs_compared": 6, "sync_columns_compared": 12, "lf_meta_checked": 12, "reference_compared": 12}
+REQUIRED = {"lf_files_compared": 12, "reruns_same_object": 3, "window_pairs_compared": 6, "sync_columns_compared": 12, "lf_meta_checked": 12, "reference_compared": 12}
 CASE_TIMEOUT = 200.0
 MAX_PROCS = 12
 
@@ -88,16 +88,22 @@ def run_case(case):
             conv = neuropixel.NP2Converter(b, post_check=False, compress=compress, delete_original=False)
             conv.init_params(nwindow=w)
             st = conv.process()
-            conv.sr.close()
             res.check(st == 1, "lfp:status", f"{label}: process() returned {st}")
+            same_object = bool(rng.integers(0, 2))
+            if w != wsel[-1] or not same_object:
+                conv.sr.close()
             if w == wsel[-1]:
-                # forced re-run over the output that is already there: the LF stream must again be exactly ceil(n/12) samples of the same content
+                # forced re-run over the output that is already there: the LF stream must again be exactly ceil(n/12) samples of the same content;
+                # half of the time with the SAME converter object, parameters initialised again (what the first run wrote must not leak into the second)
                 b2 = b if b.exists() else b.with_suffix(".cbin")
-                conv = neuropixel.NP2Converter(b2, post_check=False, compress=compress, delete_original=False)
+                if not same_object:
+                    conv = neuropixel.NP2Converter(b2, post_check=False, compress=compress, delete_original=False)
+                else:
+                    res.count("reruns_same_object")
                 conv.init_params(nwindow=w)
                 st = conv.process(overwrite=True)
                 conv.sr.close()
-                label += " (forced re-run over existing output)"
+                label += " (forced re-run over existing output" + (", same converter object)" if same_object else ")")
                 res.check(st == 1, "lfp:status", f"{label}: process(overwrite=True) returned {st}")
                 res.count("reruns")
         except Exception as e:
